@@ -280,6 +280,7 @@ func init() {
 		return int64(0)
 	}
 	verifAPI["verifNow"] = func(fr *frame, args []value) value { return intrinsics["time.Now"](fr, nil) }
+	verifAPI["verifExpectExit"] = func(fr *frame, args []value) value { fr.i.expectExit = true; return nil }
 	verifAPI["verifEvent"] = func(fr *frame, args []value) value {
 		fr.i.path.events = append(fr.i.path.events, cstr(args[0], "event"))
 		return nil
